@@ -483,7 +483,7 @@ theorem regInv_handle (s : Sys) (self : Cid) (e : Env) (hi : RegInv none s) : Re
     · split
       · exact regInv_doKill _ _ _ _ _
           (regInv_updAlive s self (fun x => { x with state := .killing, restarting := some _ }) (fun _ => rfl) (fun _ => by simp) hi)
-      · exact hi
+      · exact regInv_sameCore (sameCore_upd s self _ (fun _ => ⟨rfl, rfl, rfl⟩)) hi
     · repeat' split
       all_goals first
         | exact hi
